@@ -246,16 +246,16 @@ func replayDir(prop string) string { return filepath.Join(verifRoot(), "replays"
 // Child
 
 type childResult struct {
-	Shard      int                      `json:"shard"`
-	Done       bool                     `json:"done"`
-	CasesRun   int                      `json:"cases_run"`
-	Evals      int64                    `json:"evals"`
-	Counters   map[string]int64         `json:"counters"`
-	Samples    []interface{}            `json:"samples"`
-	Violations []*Violation             `json:"violations"`
-	Extra      map[string]interface{}   `json:"extra,omitempty"`
-	HarnessErrors []string              `json:"harness_errors,omitempty"`
-	Inconclusive  []string              `json:"inconclusive,omitempty"`
+	Shard         int                    `json:"shard"`
+	Done          bool                   `json:"done"`
+	CasesRun      int                    `json:"cases_run"`
+	Evals         int64                  `json:"evals"`
+	Counters      map[string]int64       `json:"counters"`
+	Samples       []interface{}          `json:"samples"`
+	Violations    []*Violation           `json:"violations"`
+	Extra         map[string]interface{} `json:"extra,omitempty"`
+	HarnessErrors []string               `json:"harness_errors,omitempty"`
+	Inconclusive  []string               `json:"inconclusive,omitempty"`
 }
 
 func runCaseGuarded(p *Prop, c *Ctx, idx int) {
